@@ -86,11 +86,11 @@ def gen_table(rng, maxrows=8, minrows=0, profile=None, ragged=None,
     return [[enc(c) for c in row] for row in rows]
 
 
-def gen_sort_table(rng, maxrows=8, nfields=None, ragged=None):
+def gen_sort_table(rng, maxrows=8, nfields=None, ragged=None, minrows=0):
     """Tables over the conservative value domain of the reference sort."""
     nf = nfields or rng.randint(1, 4)
     hdr = FIELDS[:nf]
-    n = rng.randint(0, maxrows)
+    n = rng.randint(minrows, maxrows)
     if ragged is None:
         ragged = rng.random() < 0.25
     # few distinct values per column -> duplicate keys
